@@ -115,6 +115,19 @@ CLAIMED["C08"] = dict(
     technique="contract-based deductive verification: detector = spec predicate over assumed container views, typestate before first yield, z3 + AST dataflow",
     design="DESIGN.md §3 C08")
 
+CLAIMED["C15"] = dict(
+    text="HISTORIES ONLY. Frame conditions on process-global state: the PDF char-map patch is proved (symbolic execution of the real "
+         "generator, exceptions thrown at the yield and close() included) to restore every patched attribute on every exit; the permanent "
+         "AES patch installs only stateless functions; every module-level cache stores a value that depends on its key alone; _config has one "
+         "writer; module-level mutable state matches the reviewed inventory; every handle opened by own code is closed on all paths; plus a "
+         "bounded native validation (fixtures in isolation vs in long sequences).",
+    note="SCHEDULES (thread interleavings) are NOT decided: per-call contracts cannot express interleavings and no tool of this family exists "
+         "for Python threads -- that half of C15 is not claimed. Assumed: the with-body leaves patched attributes as found (= this obligation, "
+         "for nested uses); the mimetypes database is constant; memo soundness is an AST parameter-dependency analysis.",
+    technique="contract-based verification of frame conditions on module state: symbolic execution of the context-manager generator (z3) + AST dependency / typestate analysis",
+    design="DESIGN.md §3 C15")
+
+PENDING = {"C15": None}
 PENDING = {}
 
 ALL = [f"C{i:02d}" for i in range(1, 21)]
